@@ -28,7 +28,6 @@ import (
 	"github.com/dolthub/go-mysql-server/sql/memo"
 	"github.com/dolthub/go-mysql-server/vh/internal/fx"
 	"github.com/dolthub/go-mysql-server/vh/internal/gen"
-	"github.com/dolthub/go-mysql-server/vh/internal/kf"
 	"github.com/dolthub/go-mysql-server/vh/internal/ref"
 	"github.com/dolthub/go-mysql-server/vh/internal/stats"
 	"pgregory.net/rapid"
@@ -39,6 +38,9 @@ const (
 	// a session's uncommitted changes become visible to other sessions' reads through a
 	// secondary index and survive ROLLBACK (index rows shared between table copies)
 	idIndexLeak = "C11-shared-index-rows"
+	// SELECT from a view inside an explicit transaction commits the transaction (binding the
+	// stored CREATE VIEW statement marks the whole query as DDL)
+	idViewCommit = "C11-view-select-commits"
 )
 
 // hashCoster makes the optimizer pick pseudo-random physical plans (as in C01); the same
@@ -132,10 +134,10 @@ type machine struct {
 	committed map[string][][]gen.Val
 	tx        map[string][][]gen.Val // session 0's view while its transaction is open
 	txDirty   bool                   // the open transaction holds uncommitted changes
-	everTxDML bool                   // some transaction of this history changed data
 	noIndex   bool                   // history without secondary indexes (region of a listed finding)
 	idxNames  map[string][]string    // parallel to Table.Indexes
 	extra     map[string][]string    // columns added by ALTER TABLE (not read by any query)
+	shifted   map[string]bool        // extra columns that were added FIRST
 	nameSeq   int
 
 	version int
@@ -223,9 +225,14 @@ func (m *machine) genPool(rt *rapid.T) {
 					m.st.Excluded(k)
 				}
 			}
-			// bias to shapes that carry caches / hash tables: subqueries, joins, grouping, set operations
-			if try >= 2 || labels["exists"] || labels["insub"] || labels["notinsub"] || labels["scalarsub"] ||
-				labels["join"] || labels["setop"] || labels["group"] {
+			// bias to shapes that carry caches / hash tables: the first query of the pool has a
+			// subquery (EXISTS / IN / NOT IN / scalar), the others at least a join, grouping,
+			// set operation or subquery (bounded number of re-draws)
+			sub := labels["exists"] || labels["insub"] || labels["notinsub"] || labels["scalarsub"]
+			if i == 0 && (sub || try >= 7) {
+				break
+			}
+			if i > 0 && (try >= 2 || sub || labels["join"] || labels["setop"] || labels["group"]) {
 				break
 			}
 		}
@@ -395,12 +402,6 @@ func (m *machine) checkQuery(rt *rapid.T, ss *sessState, p *poolQuery, mode stri
 		if tres.OK() {
 			fresh = show(fx.NormRows(tres.Schema, tres.Rows), p.ordered)
 		}
-		// signature of finding C11-shared-index-rows: the reading session is not the one whose
-		// transaction is (or was) open on a table with a secondary index
-		if m.leakRegion() && kf.Suppress(m.st, idIndexLeak) {
-			m.dead = true
-			return
-		}
 		rt.Fatalf("stale result: the query does not reflect the data visible to the session\nresult:        %s\nfresh engine:  %s\nreference:     %s\n%s\nplan:\n%s",
 			show(got, p.ordered), fresh, show(want, p.ordered), describe(), ss.s.Plan(p.text))
 	}
@@ -442,18 +443,4 @@ func (m *machine) checkQuery(rt *rapid.T, ss *sessState, p *poolQuery, mode stri
 		m.nOtherDuringTx++
 		m.st.Class("query-beside-foreign-uncommitted")
 	}
-}
-
-// leakRegion: some table has a secondary index and session 0 has (had) a transaction with
-// changes in this history.
-func (m *machine) leakRegion() bool {
-	if !m.everTxDML {
-		return false
-	}
-	for _, tb := range m.schema.Tables {
-		if len(tb.Indexes) > 0 {
-			return true
-		}
-	}
-	return false
 }
